@@ -3,6 +3,7 @@ import ast
 
 from ..core import astutil as A
 from ..core import cfg as CFG
+from ..core import match as M
 from ..core.model import dotted
 
 META = {
@@ -21,16 +22,20 @@ def run(ctx):
     post = P.func(TAR, "tar_syncer._post_download")
     sy = P.func(HTTP, "http_syncer._sync")
     # ---- R1 staging and swap ----------------------------------------------------------------------
-    tp = A.unparse(pre.node)
-    ctx.check("R1", pre, "self.tempdir = os.path.join(repos_dir, f'.{repo_name}.update')" in tp and "self.tempdir_old = os.path.join(repos_dir, f'.{repo_name}.old')" in tp and "repos_dir = os.path.dirname(basedir)" in tp, "staging-hidden-siblings", "staging dirs are hidden siblings of the repository (same filesystem: renames are atomic)")
+    # locals of _pre_download are bound by role: $base = the repository path, $rd = its parent, $rn = its last component
+    stg = M.one(pre.node, "$base = self.basedir.rstrip($_)\n$rd = os.path.dirname($base)\n$rn = os.path.basename($base)\nself.tempdir = os.path.join($rd, f'.{$rn}.update')\nself.tempdir_old = os.path.join($rd, f'.{$rn}.old')")
+    ctx.check("R1", pre, stg is not None, "staging-hidden-siblings", "staging dirs are hidden siblings of the repository (same filesystem: renames are atomic)")
     g = CFG.cfg_of(post.node)
     dom = g.dominators()
-    cmd = [v for t, v, _ in A.assignments(post.node, "cmd")]
-    ctx.require(len(cmd) == 1 and isinstance(cmd[0], ast.List), "tar _post_download: tar command not found")
-    words = [A.unparse(e) for e in cmd[0].elts]
-    ctx.check("R1", post, "'-C'" in words and words[words.index("'-C'") + 1] == "self.tempdir" and "self.basedir" not in " ".join(words), "unpacks-into-staging", "tar unpacks into the staging dir, never into the repository path")
     runs = [c for c in A.calls(post.node) if dotted(c.func) == "subprocess.run"]
     ctx.require(len(runs) == 1, "tar _post_download: subprocess.run not found")
+    # the command is whatever list reaches subprocess.run (a local, located through that use, or an inline list)
+    arg0 = runs[0].args[0] if runs[0].args else None
+    cmd = [v for t, v, _ in A.assignments(post.node, arg0.id)] if isinstance(arg0, ast.Name) else [arg0]
+    ctx.require(len(cmd) == 1 and isinstance(cmd[0], ast.List), "tar _post_download: tar command not found")
+    elts = cmd[0].elts
+    dash_c = [i for i, e in enumerate(elts) if A.is_const(e, "-C")]
+    ctx.check("R1", post, len(dash_c) == 1 and dash_c[0] + 1 < len(elts) and M.pat("self.tempdir").matches(elts[dash_c[0] + 1]) is not None and not any(M.has(e, "self.basedir") for e in elts), "unpacks-into-staging", "tar unpacks into the staging dir, never into the repository path")
     ctx.check("R1", post, any(k.arg == "check" and A.is_const(k.value, True) for k in runs[0].keywords), "unpack-failure-raises", "a failing unpack raises (check=True)")
     renames = [c for c in A.calls(post.node) if dotted(c.func) == "os.rename"]
     ctx.check("R1", post, len(renames) == 2, f"swap-renames:{len(renames)}", "the swap is two renames")
@@ -76,7 +81,8 @@ def run(ctx):
                   "http_syncer._sync creates the repository directory BEFORE _pre_download: tar_syncer's recovery keys on the repository path being absent, so after an interrupted swap the old tree in `.old` is never renamed back and is deleted by the next staging reset", node=c)
     ifs = [n for n in pre.node.body if isinstance(n, ast.If)]
     rec = [n for n in ifs if any(dotted(c.func) == "os.rename" for c in A.calls(n))]
-    ok = len(rec) == 1 and [A.unparse(v) for v in rec[0].test.values] == ["not os.path.exists(basedir)", "os.path.isdir(self.tempdir_old)", "os.listdir(self.tempdir_old)"] and "os.rename(self.tempdir_old, basedir)" in A.unparse(rec[0])
+    base_env = {"base": stg["base"]} if stg is not None else {}
+    ok = len(rec) == 1 and M.pat("if not os.path.exists($base) and os.path.isdir(self.tempdir_old) and os.listdir(self.tempdir_old):\n    os.rename(self.tempdir_old, $base)").matches(rec[0], base_env) is not None
     ctx.check("R3", pre, ok, "recovery-condition", "recovery: repository path absent and a non-empty `.old` -> rename it back",
               "tar_syncer._pre_download no longer restores the old tree after an interrupted swap", node=pre.node)
     ctx.floor("R3", 3)
@@ -85,19 +91,28 @@ def run(ctx):
     pd = [c for c in A.calls(sy.node) if A.unparse(c.func) == "self._post_download"]
     ctx.require(len(pd) == 1, "http _sync: _post_download call not found")
     opens = [c for c in A.calls(sy.node) if dotted(c.func) == "open" and len(c.args) > 1 and "w" in str(A.try_literal(c.args[1], default=""))]
-    ctx.check("R4", sy, len(opens) == 2 and {A.unparse(c.args[0]) for c in opens} == {"etag_path", "modified_path"}, f"validator-writes:{len(opens)}", "the ETag and Last-Modified files are the only files _sync writes besides the download")
+    # the two validator paths are locals of _sync: bound by what they are (files in the repository dir), named by role in the tags
+    role = {}
+    for r, fname in (("etag_path", ".etag"), ("modified_path", ".modified")):
+        m = [x for x in M.find(sy.node, "$p = pjoin(self.basedir, $$f)") if A.is_const(x["$f"], fname)]
+        if len(m) == 1:
+            role[m[0]["p"]] = r
+    who = lambda c: role.get(A.unparse(c.args[0]), A.unparse(c.args[0]))
+    ctx.check("R4", sy, len(opens) == 2 and {who(c) for c in opens} == {"etag_path", "modified_path"} and len(role) == 2, f"validator-writes:{len(opens)}", "the ETag and Last-Modified files are the only files _sync writes besides the download")
     for c in opens:
         ok = gs.node_of(pd[0]) in doms[gs.node_of(c)]
-        ctx.check("R4", sy, ok, f"validator-after-install:{A.unparse(c.args[0])}", f"`{A.unparse(c.args[0])}` is written only after _post_download (close + unpack + swap) succeeded",
-                  f"`{A.unparse(c.args[0])}` is written before _post_download: a download that unpacks badly leaves validators describing it in the PREVIOUS tree, and the next sync of the intact tarball answers 'no update'", node=c)
+        ctx.check("R4", sy, ok, f"validator-after-install:{who(c)}", f"`{who(c)}` is written only after _post_download (close + unpack + swap) succeeded",
+                  f"`{who(c)}` is written before _post_download: a download that unpacks badly leaves validators describing it in the PREVIOUS tree, and the next sync of the intact tarball answers 'no update'", node=c)
     ctx.floor("R4", 3)
 
     # ---- R5 download handling --------------------------------------------------------------------------------------------
     aw = [c for c in A.calls(sy.node) if dotted(c.func) == "AtomicWriteFile"]
-    ctx.check("R5", sy, len(aw) == 1 and A.unparse(aw[0].args[0]) == "dest" and any(k.arg == "binary" for k in aw[0].keywords), "download-atomic", "the download goes through an AtomicWriteFile on the destination")
+    dest = M.one(sy.node, "$dest = self._pre_download()")
+    ctx.check("R5", sy, len(aw) == 1 and dest is not None and M.pat("AtomicWriteFile($dest, ...)").matches(aw[0], dest.env) is not None and any(k.arg == "binary" for k in aw[0].keywords), "download-atomic", "the download goes through an AtomicWriteFile on the destination")
     closes = [(f.qual, c) for f in (sy, P.func(HTTP, "http_syncer._post_download")) for c in A.calls(f.node) if A.unparse(c.func) == "self._download.close"]
     ctx.check("R5", sy, [q for q, _ in closes] == ["http_syncer._post_download"], f"published-only-when-complete:{[q for q, _ in closes]}", "the download is published (close) only by _post_download, i.e. after the read loop ended normally")
-    ctx.check("R5", pre, "self.tarball = tempfile.NamedTemporaryFile()" in tp and "return self.tarball.name" in tp, "tarball-outside-repo", "the tarball is downloaded to a temporary file, not into the repository")
+    rets = A.returns(pre.node)
+    ctx.check("R5", pre, M.has(pre.node, "self.tarball = tempfile.NamedTemporaryFile()") and bool(rets) and all(M.pat("return self.tarball.name").matches(r) is not None for r in rets), "tarball-outside-repo", "the tarball is downloaded to a temporary file, not into the repository")
     ctx.floor("R5", 3)
 
 
